@@ -425,7 +425,7 @@ func checkAddrTables(r *Run, rc *RuleCtx, le *linEval, tn string, xored bool, ad
 								c2, isC := constInt(bo.Y)
 								return isC && c2 == 2 && bo.X == famCall
 							}) {
-								if ci.OnTrue == pred || ci.OnTrue.Dominates(pred) {
+								if ci.OnTrue == pred || blockDominates(ci.OnTrue, pred) {
 									okSel = true
 								}
 							}
@@ -758,11 +758,11 @@ func checkAccept(r *Run, rc *RuleCtx, getM *ssa.Function) {
 				}
 				nr := 0
 				for _, x := range fn.Blocks {
-					if !succ.Dominates(x) {
+					if !blockDominates(succ, x) {
 						continue
 					}
 					for _, s := range x.Succs {
-						if !succ.Dominates(s) {
+						if !blockDominates(succ, s) {
 							return false
 						}
 					}
@@ -866,6 +866,22 @@ func checkV4Mapped(r *Run, rc *RuleCtx, le *linEval) {
 					if fullRangeLoopAllowingReturnExit(lp, root, ia, fn) || countingLoopOver(lp, root, ia) {
 						for i := int64(0); i < limit; i++ {
 							covered[base+i] = "loop"
+						}
+					}
+				}
+			}
+			// a full loop over a constant-range sub-slice held in a local (prefix := ip[0:10])
+			if ia, ok := in.(*ssa.IndexAddr); ok && ia.X != root {
+				if sub, isSl := ia.X.(*ssa.Slice); isSl {
+					if rt, lo, hi := le.window(sub); rt == root && hi != nil {
+						l, ok1 := lo.isConst()
+						h, ok2 := hi.isConst()
+						if lp := inLoop(loopsOf(fn), b); ok1 && ok2 && lp != nil {
+							if fullRangeLoopAllowingReturnExit(lp, sub, ia, fn) || countingLoopOver(lp, sub, ia) {
+								for i := l; i < h; i++ {
+									covered[base+i] = "loop"
+								}
+							}
 						}
 					}
 				}
